@@ -729,7 +729,7 @@ bool HttpMessage::putFile(const String& path, int begin, int end)
 	if (multipart)
 	{
 		boundary = "-----------";
-		for (int i = 0; i < 64; i++)
+		for (int i = 0; i < 48; i++) // 59 characters: RFC 2046 allows at most 70
 			boundary += (char)random('0', '9');
 
 		String head = "--" + boundary + "\r\n" +
